@@ -245,12 +245,24 @@ def covers_ensures(focus=None, guard=""):
     return "".join("__CPROVER_ensures(%s%s)  /* C16 save.covers_state: %s */\n" % (guard, covers(*t), t[0]) for t in _sel(focus))
 
 
-def make_save_graph(focus=None):
+def _no_loops(m):
+    """the unbounded groups have no loop contract to offer for a loop written in the body itself (today's body has none:
+    every copy is an xtensor assignment): such a body is an extraction break there (exit 2, never a violation) and is judged
+    by the bounded stand-in"""
+    if ex.find_loops(m.group(0)):
+        raise ex.ExtractionError("snapshot _save: explicit loop in the body (no loop contract available; see the bounded group)")
+    return m.group(0)
+
+
+NO_LOOPS = R(r"\A.*\Z", _no_loops, 1, re.S)
+
+
+def make_save_graph(focus=None, allow_loops=False):
     return Unit(
         name="snapshot_save_graph", file=SNAP_H,
         anchor=r"void _save\(const FG& graph_impl, FG& graph_impl_snapshot\) const",
         sig="void snapshot_save_graph(%s)" % G_PARAMS,
-        pre=MODEL, rules=GRAPH_RULES,
+        pre=MODEL, rules=GRAPH_RULES + ([] if allow_loops else [NO_LOOPS]),
         contract=_fresh(focus) + "/* C16 save.no_alias: only the snapshot's tables are in the write frame */\n"
                  "__CPROVER_assigns(%s)\n" % _snap_assigns(focus) + covers_ensures(focus),
     )
@@ -386,11 +398,8 @@ def _called(unit, names):
     return [n for n in names if re.search(r"\b%s\(" % n, body)]
 
 
-# supporting (not deciding) obligations: the container-model shape check, and the unwinding assertion that cuts a loop
-# which has no loop contract (a changed body with an explicit element loop): such a body is "proof detached" in the
-# unbounded groups and is judged by the bounded stand-in
-SUPPORTING = r"container model:|unwinding assertion"
-UNWIND = 24
+# supporting (not deciding) obligation: the container model's equal-shape check
+SUPPORTING = r"container model:"
 WIDTHS = [(1, 1, "w1to1"), (8, 1, "w8to1"), (8, 8, "w8to8")]   # (live receiver width, snapshot receiver width)
 NB = 8
 WHAT = {
@@ -408,7 +417,7 @@ def groups():
         for (sw, dw, tag) in (WIDTHS if kind == "rec" else [(8, 1, "")]):
             gs.append(Group(
                 name="snapshot.save.graph.%s%s" % (name, "." + tag if tag else ""), units=[make_save_graph([name])], harness=H_GRAPH,
-                entry="h_snapshot_save_graph", enforce="snapshot_save_graph", loop_contracts=True, unwind=UNWIND,
+                entry="h_snapshot_save_graph", enforce="snapshot_save_graph", loop_contracts=True,
                 defines=defines(sw, dw, NB, [name]), backend="sat", timeout=300, min_obligations=40, supporting=SUPPORTING,
                 clause="C16 save.covers_state + save.no_alias for the table %s: after _save(graph) it equals the source at an arbitrary "
                        "cell%s; only snapshot tables are written; any number of nodes%s"
@@ -433,7 +442,7 @@ def groups():
                "_save contract, the elevation snapshot exactly when save_elevation() is set; otherwise the stored snapshot is untouched "
                "(callee contracts instantiated for receivers, receivers_weight, bfs_levels)"))
     gs.append(Group(
-        name="snapshot.save.graph.bounded_receivers.w8to1", units=[make_save_graph(["receivers"])], harness=H_GRAPH_BOUNDED,
+        name="snapshot.save.graph.bounded_receivers.w8to1", units=[make_save_graph(["receivers"], allow_loops=True)], harness=H_GRAPH_BOUNDED,
         entry="h_snapshot_save_graph_b", enforce="snapshot_save_graph", unwind=BND + 2,
         defines=defines(8, 1, NB, ["receivers"]), backend="sat", timeout=300, min_obligations=40, supporting=SUPPORTING,
         bounded="graphs of at most %d nodes (all loops unwound %d times)" % (BND, BND + 2),
